@@ -523,6 +523,15 @@ func (val Node) AsNumber(ctx *Context) (json.Number, bool) {
 }
 
 func (val Node) NonstrAsNumber(ctx *Context) (json.Number, bool) {
+	num, ok := val.nonstrAsNumberRef(ctx)
+	/* the number text refers to the input: copy it when the CopyString option asks for that */
+	if ok && ctx.Options()&(1<<_F_copy_string) != 0 {
+		num = json.Number(string(rt.Str2Mem(string(num))))
+	}
+	return num, ok
+}
+
+func (val Node) nonstrAsNumberRef(ctx *Context) (json.Number, bool) {
 	// deal with raw number
 	if val.IsRawNumber() {
 		return val.Number(ctx), true
